@@ -29,17 +29,24 @@ from . import c06 as base
 MANIFEST = {
     "engine": "Validate",
     "technique": "Lean 4 proof that the four declaration constructors (mirroring add_argument dispatch, _add_signature_parameter, "
-                 "_create_group_if_requested, ActionParser._move_parser_actions) produce the same action table + parse fold over tables "
+                 "_create_group_if_requested, set_defaults, ActionParser._move_parser_actions) produce the same action table, for flat and for "
+                 "recursive field lists with declared group defaults + parse fold over tables + regenerated set_defaults loop table "
                  "+ differential correspondence of tables and results on four real parsers per field list",
-    "text": "Theorems in lean/Jap/Props/C07.lean prove for all keys and all well-formed field lists that the dotted, dataclass, class-arguments and "
-            "inner-parser constructors produce the same dests, option strings, defaults and required set (the three non-dotted ones also the same "
-            "whole-group option), hence the same parse result (values or error) and dump for every input sequence; for the dotted style this is "
-            "proved for inputs that do not assign the group as a whole (C07_styles_partial) and the witness that it lacks the `--g` option is a "
-            "theorem (open finding, DESIGN section 7 row 9). The model is tied to the code by comparing, per generated field list, the four real "
-            "parsers' action tables with the model's and every real parse result with the model's.",
+    "text": "Theorems in lean/Jap/Props/C07.lean prove, for all keys, defaults mappings and RECURSIVE field lists (a field may be a sub-group, any "
+            "depth), without side conditions: (C07_same_table) the dotted, dataclass, class-arguments and inner-parser constructors produce the same "
+            "dests, option strings, required set and DEFAULTS - the declared group default where one was given (outermost wins), else the class "
+            "default - and the three non-dotted ones the same whole-group option at every level; (C07_set_defaults_all_entries) set_defaults "
+            "performs every leaf assignment of the defaults mapping whatever its position relative to sub-group entries, tied to the source by "
+            "the regenerated AST facts of its _ActionConfigLoad branch (C07_set_defaults_continue); (C07_styles_nondotted) the same parse result "
+            "(values or error, dump order) for the three non-dotted styles on every input sequence; (C07_styles_partial) for all four styles on "
+            "inputs that do not assign a group as a whole, given that no group key of the outcome holds a string; the witnesses that the dotted "
+            "style lacks the group options (open finding, DESIGN section 7 row 9). The flat-list theorems (*_flat) additionally cover the "
+            "signature rules for Optional / underscore parameters. The model is tied to the code by comparing, per generated field list (flat and "
+            "recursive with declared defaults), the four real parsers' action tables with the model's and every real parse result with the model's.",
     "level_note": "Trusted: Lean kernel; axioms propext/Quot.sound/Classical.choice only; the harness; the YAML loader as an oracle (every text that "
-                  "occurs is loaded by jsonargparse's own load_value and handed to the model). Types outside the six-type grammar, positionals, "
-                  "help/usage text and instantiate_classes are outside the model.",
+                  "occurs is loaded by jsonargparse's own load_value and handed to the model). In recursive lists every leaf has a class default and "
+                  "keys of a defaults mapping name fields of the group. Types outside the six-type grammar, positionals, help/usage text and "
+                  "instantiate_classes are outside the model.",
 }
 
 STYLES = ["dotted", "dataclass", "class", "inner"]
@@ -391,7 +398,7 @@ def input_texts(inp):
 # ---------------------------------------------------------------- the check
 def judge(ctx, key, fields, inp, results, stats, origin, ext=None):
     """property oracle: the four styles agree (values / reject, dump text)"""
-    uw = uses_whole(inp, key)
+    uw = uses_whole(inp, key) if ext is None else ext_uses_whole(inp, ext)
     ref_style = "dataclass"
     ref = results[ref_style]
     replay = {"kind": "styles", "key": key, "fields": fields, "input": inp} if ext is None else {"kind": "ext", "ext": ext, "input": inp}
@@ -538,107 +545,171 @@ def run_group(ctx, key, fields, inputs, parsers, out, stats, origin):
                                                 "real": list(results[st])}, default=repr) + "\n")
 
 
-# ---------------------------------------------------------------- extended field lists (search stage only)
-# A NESTED sub-group that is not the last field, and group defaults declared through a default instance / default dict
-# (`add_argument("--g", type=DC, default=DC(...))`, `add_class_arguments(C, "g", default={...})`) that differ from the class's own
-# defaults; the dotted and inner-parser styles state the same defaults on each argument.  The Lean model of C07 knows flat field
-# lists only: these lists go through the oracle (four real parsers must agree) and the table oracle, not through the model
-# (DESIGN appendix C: constructors the current model stage does not know are routed to the search stage and counted separately).
+# ---------------------------------------------------------------- recursive field lists with declared group defaults
+# A field may itself be a group (nested dataclass / nested class arguments / nested inner parser / dotted `g.n.x` arguments), to depth 3.
+# Defaults are DECLARED for groups: at the root through `default=` (a default instance for the dataclass-typed argument, a default dict
+# for add_class_arguments), and for a sub-group through the default instance of the dataclass-typed parameter ("own"); the dotted and
+# inner-parser styles state the resulting default on each argument.  Model: lean/Jap/Core/Styles.lean (declR, parseR).
+#   node = {"name", "ty", "cls": class default, "ownv"?: value given by the enclosing sub-group's default instance, "rootv"?: value given by
+#           the root default}  |  {"name", "sub": [node, ...]}
 EXT_DEFAULTS = {
     "int": [0, 3, -2, 7], "str": ["s0", "w", "k"], "bool": [False, True], "float": [1.5, -0.25, 2.5],
     "optInt": [None, 4, 9], "listInt": [[], [1, 2], [3]],
 }
+TYEXPR = {"int": "int", "str": "str", "bool": "bool", "float": "float", "optInt": "Optional[int]", "listInt": "List[int]"}
 
 
 def gen_ext(rng):
-    """{"key", "leaves": [{"name" (dotted below the key), "ty", "cls" (class default), "def" (declared default)}], "order": [...], "sub": name}"""
     key = rng.choice(KEY_POOL)
-    names = rng.sample(NAME_POOL, rng.randint(3, 5))
-    sub = names[0]
-    outer = names[1:]
-    pos = rng.randint(0, len(outer) - 1)              # at least one field follows the sub-group
-    order = outer[:pos] + [sub] + outer[pos:]
-    subleaves = rng.sample(["xx", "yy", "zed"], rng.randint(1, 2))
-    leaves = []
-    for n in order:
-        for leafname in ([n + "." + x for x in subleaves] if n == sub else [n]):
-            ty = rng.choice(TYPES)
-            c = rng.choice(EXT_DEFAULTS[ty])
-            d = rng.choice([x for x in EXT_DEFAULTS[ty] if x != c]) if rng.random() < 0.75 else c
-            leaves.append({"name": leafname, "ty": ty, "cls": c, "def": d})
-    after = [l for l in leaves if "." not in l["name"] and order.index(l["name"]) > order.index(sub)]
-    if all(l["def"] == l["cls"] for l in after):       # make sure a default declared AFTER the sub-group differs from the class default
-        l = after[0]
-        l["def"] = [x for x in EXT_DEFAULTS[l["ty"]] if x != l["cls"]][0]
-    return {"key": key, "sub": sub, "order": order, "leaves": leaves}
+    pool = list(NAME_POOL) + ["xx", "yy", "zed", "kk"]
+
+    def leaf(name, in_sub):
+        ty = rng.choice(TYPES)
+        c = rng.choice(EXT_DEFAULTS[ty])
+        n = {"name": name, "ty": ty, "cls": c}
+        others = [x for x in EXT_DEFAULTS[ty] if x != c]
+        if in_sub and rng.random() < 0.4:
+            n["ownv"] = rng.choice(others)
+        if rng.random() < 0.55:
+            n["rootv"] = rng.choice([x for x in EXT_DEFAULTS[ty] if x != n.get("ownv", c)] or others)
+        return n
+
+    def fields(depth, in_sub):
+        names = rng.sample(pool, rng.randint(2, 4))
+        out = [leaf(n, in_sub) for n in names]
+        if depth < 3 and (depth == 1 or rng.random() < 0.4):
+            subname = rng.choice([x for x in pool if x not in names])
+            pos = rng.randint(0, len(out) - 1)                      # at least one field follows the sub-group
+            out.insert(pos, {"name": subname, "sub": fields(depth + 1, True)})
+            after = [x for x in out[pos + 1:] if "sub" not in x]
+            if depth == 1 and not any("rootv" in x for x in after):  # a root default declared AFTER the sub-group, differing from the class default
+                x = after[0]
+                x["rootv"] = [v for v in EXT_DEFAULTS[x["ty"]] if v != x["cls"]][0]
+        return out
+
+    return {"key": key, "fields": fields(1, False)}
+
+
+def ext_effective(n):
+    return n["rootv"] if "rootv" in n else n["ownv"] if "ownv" in n else n["cls"]
+
+
+def ext_leaves(nodes, prefix=""):
+    for n in nodes:
+        if "sub" in n:
+            yield from ext_leaves(n["sub"], prefix + n["name"] + ".")
+        else:
+            yield prefix + n["name"], n
+
+
+def ext_module(ext):
+    """dataclasses DCk (for the dataclass style and every nested group) and a plain class PG (class-arguments style)"""
+    lines = ["from dataclasses import dataclass, field", "from typing import List, Optional", "", ""]
+    counter = [0]
+
+    def own_kwargs(nodes, with_root):
+        """the constructor arguments of the default instance of a sub-group: its own values (and, for the root default, the root values on top)"""
+        parts = []
+        for n in nodes:
+            if "sub" in n:
+                inner = own_kwargs(n["sub"], with_root)
+                if inner or with_root and any("rootv" in l for _, l in ext_leaves(n["sub"])):
+                    parts.append("%s=%s(%s)" % (n["name"], n["clsname"], inner))
+            else:
+                if with_root and "rootv" in n:
+                    parts.append("%s=%r" % (n["name"], n["rootv"]))
+                elif "ownv" in n:
+                    parts.append("%s=%r" % (n["name"], n["ownv"]))
+        return ", ".join(parts)
+
+    def emit_named(nodes):
+        for n in nodes:
+            if "sub" in n:
+                emit_named(n["sub"])
+                n["clsname"] = emit_flat(n["sub"])
+
+    def emit_flat(nodes):
+        counter[0] += 1
+        name = "DC%d" % counter[0]
+        body = ["@dataclass", "class %s:" % name]
+        for n in nodes:
+            if "sub" in n:
+                body.append("    %s: %s = field(default_factory=lambda: %s(%s))" % (n["name"], n["clsname"], n["clsname"], own_kwargs(n["sub"], False)))
+            elif isinstance(n["cls"], list):
+                body.append("    %s: %s = field(default_factory=lambda: %r)" % (n["name"], TYEXPR[n["ty"]], n["cls"]))
+            else:
+                body.append("    %s: %s = %r" % (n["name"], TYEXPR[n["ty"]], n["cls"]))
+        lines.extend(body + ["", ""])
+        return name
+
+    emit_named(ext["fields"])
+    root = emit_flat(ext["fields"])
+    params = []
+    for n in ext["fields"]:
+        if "sub" in n:
+            params.append("%s: %s = %s(%s)" % (n["name"], n["clsname"], n["clsname"], own_kwargs(n["sub"], False)))
+        else:
+            params.append("%s: %s = %r" % (n["name"], TYEXPR[n["ty"]], n["cls"]))
+    lines.extend(["class PG:", "    def __init__(self, %s):" % ", ".join(params), "        pass", ""])
+    root_inst = "%s(%s)" % (root, own_kwargs(ext["fields"], True))
+    lines.extend(["ROOT_DEFAULT = %s" % root_inst, "ROOT_CLASS = %s" % root, ""])
+    base._COUNTER[0] += 1
+    modname = "c07x_%d_%d" % (os.getpid(), base._COUNTER[0])
+    src = "\n".join(lines)
+    with open(os.path.join(base.gen_dir(), modname + ".py"), "w") as f:
+        f.write(src)
+    importlib.invalidate_caches()
+    return importlib.import_module(modname), src
+
+
+def ext_root_dict(nodes):
+    d = {}
+    for n in nodes:
+        if "sub" in n:
+            sd = ext_root_dict(n["sub"])
+            if sd:
+                d[n["name"]] = sd
+        elif "rootv" in n:
+            d[n["name"]] = copy.deepcopy(n["rootv"])
+    return d
 
 
 def build_four_ext(ext):
+    from typing import List, Optional
+
     from jsonargparse import ActionConfigFile, ActionParser, ArgumentParser
 
-    key, sub = ext["key"], ext["sub"]
-
-    def node(l, which):
-        return {"k": "leaf", "ty": l["ty"], "req": False, "def": l[which]}
-
-    def fields_for(tag):
-        out = []
-        for n in ext["order"]:
-            if n == sub:
-                inner = [[l["name"].split(".", 1)[1], node(l, "cls")] for l in ext["leaves"] if l["name"].startswith(sub + ".")]
-                out.append([n, {"k": "group", "style": "dataclass", "whole": True, "fields": inner, "cls": "DCI" + tag}])
-            else:
-                out.append([n, node(next(l for l in ext["leaves"] if l["name"] == n), "cls")])
-        return out
-
-    spec = [["dc", {"k": "group", "style": "dataclass", "whole": True, "fields": fields_for("1"), "cls": "DC1"}],
-            ["pg", {"k": "group", "style": "class", "whole": True, "fields": fields_for("2"), "cls": "PG1"}]]
-    mod, src = base.write_module(spec)
-    changed = [l for l in ext["leaves"] if l["def"] != l["cls"]]
+    key = ext["key"]
+    mod, src = ext_module(ext)
+    pyty = {"int": int, "str": str, "bool": bool, "float": float, "optInt": Optional[int], "listInt": List[int]}
+    has_root = bool(ext_root_dict(ext["fields"]))
     parsers = {}
     for st in STYLES:
         p = ArgumentParser(exit_on_error=False, env_prefix="APP", default_env=False)
         p.add_argument("--cfg", action=ActionConfigFile)
         if st == "dotted":
-            for l in ext["leaves"]:
-                p.add_argument("--%s.%s" % (key, l["name"]), type=base.py_type(node(l, "def"), mod), default=copy.deepcopy(l["def"]))
+            for path, n in ext_leaves(ext["fields"]):
+                p.add_argument("--%s.%s" % (key, path), type=pyty[n["ty"]], default=copy.deepcopy(ext_effective(n)))
         elif st == "dataclass":
-            kw = {}
-            subkw = {l["name"].split(".", 1)[1]: copy.deepcopy(l["def"]) for l in changed if l["name"].startswith(sub + ".")}
-            for n in ext["order"]:
-                if n == sub:
-                    if subkw:
-                        kw[n] = mod.DCI1(**subkw)
-                else:
-                    l = next(x for x in ext["leaves"] if x["name"] == n)
-                    if l["def"] != l["cls"]:
-                        kw[n] = copy.deepcopy(l["def"])
-            p.add_argument("--" + key, type=mod.DC1, default=mod.DC1(**kw))
+            if has_root:
+                p.add_argument("--" + key, type=mod.ROOT_CLASS, default=copy.deepcopy(mod.ROOT_DEFAULT))
+            else:
+                p.add_argument("--" + key, type=mod.ROOT_CLASS)
         elif st == "class":
-            d = {}
-            for n in ext["order"]:
-                if n == sub:
-                    sd = {l["name"].split(".", 1)[1]: copy.deepcopy(l["def"]) for l in changed if l["name"].startswith(sub + ".")}
-                    if sd:
-                        d[n] = sd
-                else:
-                    l = next(x for x in ext["leaves"] if x["name"] == n)
-                    if l["def"] != l["cls"]:
-                        d[n] = copy.deepcopy(l["def"])
-            p.add_class_arguments(mod.PG1, key, default=d)
+            if has_root:
+                p.add_class_arguments(mod.PG, key, default=ext_root_dict(ext["fields"]))
+            else:
+                p.add_class_arguments(mod.PG, key)
         else:
-            inner = ArgumentParser(exit_on_error=False)
-            for n in ext["order"]:
-                if n == sub:
-                    sp = ArgumentParser(exit_on_error=False)
-                    for l in ext["leaves"]:
-                        if l["name"].startswith(sub + "."):
-                            sp.add_argument("--" + l["name"].split(".", 1)[1], type=base.py_type(node(l, "def"), mod), default=copy.deepcopy(l["def"]))
-                    inner.add_argument("--" + n, action=ActionParser(parser=sp))
-                else:
-                    l = next(x for x in ext["leaves"] if x["name"] == n)
-                    inner.add_argument("--" + n, type=base.py_type(node(l, "def"), mod), default=copy.deepcopy(l["def"]))
-            p.add_argument("--" + key, action=ActionParser(parser=inner))
+            def inner_of(nodes):
+                ip = ArgumentParser(exit_on_error=False)
+                for n in nodes:
+                    if "sub" in n:
+                        ip.add_argument("--" + n["name"], action=ActionParser(parser=inner_of(n["sub"])))
+                    else:
+                        ip.add_argument("--" + n["name"], type=pyty[n["ty"]], default=copy.deepcopy(ext_effective(n)))
+                return ip
+            p.add_argument("--" + key, action=ActionParser(parser=inner_of(ext["fields"])))
         parsers[st] = p
     return parsers, src
 
@@ -652,86 +723,225 @@ def nest_set(d, dotted, v):
 
 def gen_ext_input(rng, ext):
     key = ext["key"]
-    flat = [{"name": l["name"], "ty": l["ty"], "def": l["def"]} for l in ext["leaves"]]
-    mode = rng.choice(["argv", "argv", "empty", "string", "object", "env"])
-    inp = {"mode": "argv" if mode == "empty" else mode, "argv": [], "env": {}, "tree": None}
+    flat = [{"name": path, "ty": n["ty"]} for path, n in ext_leaves(ext["fields"])]
+    groups = sorted({".".join(f["name"].split(".")[:i]) for f in flat for i in range(1, len(f["name"].split(".")))})
+    mode = rng.choice(["argv", "argv", "argv", "string", "object", "env"])
+    inp = {"mode": mode, "argv": [], "env": {}, "tree": None}
     good = {"int": ["1", "-3", "12"], "str": ["hello", "a b"], "bool": ["true", "false"], "float": ["1.5", "2"], "optInt": ["null", "4"], "listInt": ["[1,2]", "[]", "[4]"]}
     native = {"int": [1, -3], "str": ["hello", "w"], "bool": [True, False], "float": [1.5, 2], "optInt": [None, 4], "listInt": [[1, 2], []]}
-    bad = rng.random() < 0.2
+    bad = rng.random() < 0.25
+
+    def some_group_json(prefix):
+        g = {}
+        for f in flat:
+            if f["name"].startswith(prefix) and rng.random() < 0.5:
+                nest_set(g, f["name"][len(prefix):], copy.deepcopy(rng.choice(NATIVE[f["ty"]] if bad else native[f["ty"]])))
+        return g
+
     if mode == "argv":
         for f in flat:
             if rng.random() < 0.4:
                 inp["argv"].append("--%s.%s=%s" % (key, f["name"], rng.choice(RAW[f["ty"]] if bad else good[f["ty"]])))
             if f["ty"] == "listInt" and rng.random() < 0.5:
                 inp["argv"].append("--%s.%s+=%s" % (key, f["name"], rng.choice(["3", "[4,5]"])))
-        if rng.random() < 0.2:
-            g = {}
+        if rng.random() < 0.3:
+            if groups and rng.random() < 0.5:
+                gname = rng.choice(groups)
+                inp["argv"].insert(rng.randint(0, len(inp["argv"])), "--%s.%s=%s" % (key, gname, json.dumps(some_group_json(gname + "."))))
+            else:
+                inp["argv"].insert(rng.randint(0, len(inp["argv"])), "--%s=%s" % (key, json.dumps(some_group_json(""))))
+        if bad and rng.random() < 0.4:
+            inp["argv"].append("--%s.%szz9=1" % (key, (rng.choice(groups) + ".") if groups and rng.random() < 0.6 else ""))
+        if rng.random() < 0.25:
             for f in flat:
-                if rng.random() < 0.5:
-                    nest_set(g, f["name"], copy.deepcopy(rng.choice(native[f["ty"]])))
-            inp["argv"].insert(rng.randint(0, len(inp["argv"])), "--%s=%s" % (key, json.dumps(g)))
-        if bad and rng.random() < 0.4:
-            inp["argv"].append("--%s.%s.zz9=1" % (key, ext["sub"]))
+                if rng.random() < 0.3:
+                    inp["env"]["APP_%s__%s" % (key.upper(), f["name"].upper().replace(".", "__"))] = rng.choice(good[f["ty"]])
     elif mode in ("string", "object"):
-        g = {}
-        for f in flat:
-            if rng.random() < 0.5:
-                nest_set(g, f["name"], copy.deepcopy(rng.choice(NATIVE[f["ty"]] if bad else native[f["ty"]])))
+        g = some_group_json("")
         if bad and rng.random() < 0.4:
-            nest_set(g, ext["sub"] + ".zz9", 1)
+            nest_set(g, ((rng.choice(groups) + ".") if groups and rng.random() < 0.6 else "") + "zz9", rng.choice([1, {}, {"q": 1}]))
+        if bad and groups and rng.random() < 0.2:
+            nest_set(g, rng.choice(groups), rng.choice([3, None, [1]]))
         inp["tree"] = {key: g}
-    elif mode == "env":
+    else:
         for f in flat:
             if rng.random() < 0.4:
-                inp["env"]["APP_%s__%s" % (key.upper(), f["name"].upper().replace(".", "__"))] = rng.choice(good[f["ty"]])
+                inp["env"]["APP_%s__%s" % (key.upper(), f["name"].upper().replace(".", "__"))] = rng.choice(RAW[f["ty"]] if bad else good[f["ty"]])
     return inp
 
 
-def run_ext(ctx, ext, inputs, stats, origin):
-    """oracle only: the four real parsers agree on tables (dests / option strings / defaults / required) and on every input"""
+def ext_uses_whole(inp, ext):
+    """the input assigns a group (the root group or a sub-group) as a whole: its option, or a non-mapping value in a configuration"""
+    key = ext["key"]
+    groups = {key} | {key + "." + ".".join(path.split(".")[:i]) for path, _ in ext_leaves(ext["fields"]) for i in range(1, len(path.split(".")))}
+    if any(a[2:].split("=")[0] in groups for a in inp["argv"]):
+        return True
+
+    def walk(v, path):
+        if path in groups and not isinstance(v, dict):
+            return True
+        return isinstance(v, dict) and any(walk(x, (path + "." if path else "") + k) for k, x in v.items())
+    return walk(inp.get("tree") or {}, "")
+
+
+def wire_fieldsR(nodes):
+    out = []
+    for n in nodes:
+        if "sub" in n:
+            own = [[l["name"], {"v": base.wire_val(l["ownv"])}] for l in n["sub"] if "sub" not in l and "ownv" in l]
+            out.append({"name": n["name"], "declared": own, "sub": wire_fieldsR(n["sub"])})
+        else:
+            out.append({"name": n["name"], "ty": n["ty"], "def": base.wire_val(n["cls"])})
+    return out
+
+
+def wire_dmap(d):
+    return [[k, {"m": wire_dmap(v)} if isinstance(v, dict) else {"v": base.wire_val(v)}] for k, v in d.items()]
+
+
+def model_items_ext(inp, ext, loads):
+    key = ext["key"]
+    ld = dict((t, v) for t, v in loads)
+    leaves = dict((key + "." + path, n) for path, n in ext_leaves(ext["fields"]))
+    items = []
+    for dest in leaves:                                   # environment: the arguments in declaration order
+        var = "APP_" + dest.upper().replace(".", "__")
+        if var in inp["env"]:
+            items.append({"t": "opt", "p": dest.split("."), "plus": False, "v": inp["env"][var]})
+    main = []
+    for a in inp["argv"]:
+        k, _, v = a[2:].partition("=")
+        plus = k.endswith("+")
+        k = k[:-1] if plus else k
+        if k in leaves or plus:
+            main.append({"t": "opt", "p": k.split("."), "plus": plus, "v": v})
+        elif any(d.startswith(k + ".") for d in leaves):
+            main.append({"t": "wholeOpt", "p": k.split("."), "v": ld.get(v, v)})
+        else:
+            main.append({"t": "opt", "p": k.split("."), "plus": False, "v": v})
+    if inp["mode"] in ("string", "object"):
+        main.append({"t": "tree", "v": base.wire_val(inp["tree"])})
+    return items + main
+
+
+def real_table_ext(parser):
+    from jsonargparse._actions import _ActionConfigLoad, filter_default_actions
+
+    entries, wholes = [], []
+    for a in filter_default_actions(parser._actions):
+        if a.dest in ("cfg", "help"):
+            continue
+        if isinstance(a, _ActionConfigLoad):
+            wholes.append(a.dest if a.option_strings == ["--" + a.dest] else "?" + repr(a.option_strings))
+            continue
+        entries.append({"dest": a.dest, "opts": sorted(o[2:] if o.startswith("--") else "?" + o for o in a.option_strings), "def": base.canon(a.default)})
+    return {"entries": entries, "required": sorted(parser.required_args), "wholes": sorted(wholes)}
+
+
+def prepare_ext(ext, inputs):
     try:
         parsers, src = build_four_ext(ext)
     except Exception as ex:  # noqa: BLE001
-        raise MachineryError("the four parsers of an extended field list could not be built for %r: %r" % (ext, ex))
+        raise MachineryError("the four parsers of a recursive field list could not be built for %r: %r" % (ext, ex))
+    wf, wd = wire_fieldsR(ext["fields"]), wire_dmap(ext_root_dict(ext["fields"]))
+    lines = [{"op": "declR", "style": st, "key": ext["key"], "D": wd, "fields": wf} for st in STYLES]
+    for inp in inputs:
+        loads = load_oracle(input_texts(inp))
+        items = model_items_ext(inp, ext, loads)
+        for st in STYLES:
+            lines.append({"op": "parseR", "style": st, "key": ext["key"], "D": wd, "fields": wf, "load": loads, "items": items})
+    return parsers, lines
+
+
+def run_exts(ctx, exts, stats, origin):
+    """`exts`: [(ext, inputs)]; one driver run for all"""
+    prepared = [prepare_ext(e, i) for e, i in exts]
+    lines = [l for _, ls in prepared for l in ls]
+    try:
+        out_all = ctx.driver("Validate", lines) if lines else []
+    except MachineryError as ex:
+        if ctx.lean_ok:
+            raise
+        ctx.tie_break("correspondence Validate (C07, recursive field lists) not runnable (model does not build)", str(ex)[:500])
+        out_all = None
+    pos = 0
+    for (ext, inputs), (parsers, ls) in zip(exts, prepared):
+        out = out_all[pos:pos + len(ls)] if out_all is not None else None
+        pos += len(ls)
+        run_ext(ctx, ext, inputs, parsers, out, stats, origin)
+
+
+def run_ext(ctx, ext, inputs, parsers, out, stats, origin):
     key = ext["key"]
-    tabs = {st: real_table(parsers[st], key) for st in STYLES}
+    tabs = {st: real_table_ext(parsers[st]) for st in STYLES}
     ctx.count(4)
+    # --- correspondence: the model's declR vs the real action table, per style
+    if out is not None:
+        for i, st in enumerate(STYLES):
+            m = out[i]
+            mt = {"entries": [{"dest": e["dest"], "opts": sorted(e["opts"]), "def": unwire(e["def"])} for e in m.get("entries", [])],
+                  "required": sorted(m.get("required", [])), "wholes": sorted(m.get("wholes", []))}
+            if json.dumps(mt, sort_keys=True) != json.dumps(tabs[st], sort_keys=True):
+                stats["disagree"] += 1
+                ctx.tie_break("action table of the real %s-style parser differs from the model's declR (recursive fields, declared defaults)" % st,
+                              json.dumps({"real": tabs[st], "model": mt, "ext": ext}, default=repr)[:1900])
+    # --- oracle on the tables: same dests / option strings / defaults / required in the four styles, same group options in the three
     for st in STYLES[1:]:
-        a, b = dict(tabs["dotted"], whole=None), dict(tabs[st], whole=None)
-        a["entries"] = sorted(a["entries"], key=lambda e: e["dest"])
-        b["entries"] = sorted(b["entries"], key=lambda e: e["dest"])
+        a, b = dict(tabs["dotted"], wholes=None), dict(tabs[st], wholes=None)
         if json.dumps(a, sort_keys=True) != json.dumps(b, sort_keys=True):
             diff = [(x, y) for x, y in zip(a["entries"], b["entries"]) if x != y][:3]
-            ctx.violation("the %s style declares different defaults / options than the dotted style for a group with a nested sub-group and declared "
+            ctx.violation("the %s style declares different defaults / options than the dotted style for a group with nested sub-groups and declared "
                           "group defaults: %s" % (st, json.dumps(diff, default=repr)[:300]),
                           {"kind": "ext", "ext": ext, "input": {"mode": "argv", "argv": [], "env": {}, "tree": None}})
             stats["violations"] += 1
-    fields = [{"name": l["name"], "ty": l["ty"], "def": l["def"]} for l in ext["leaves"]]
+        if st != "dataclass" and tabs[st]["wholes"] != tabs["dataclass"]["wholes"]:
+            ctx.violation("the %s style has other whole-group options than the dataclass style: %s vs %s" % (st, tabs[st]["wholes"], tabs["dataclass"]["wholes"]),
+                          {"kind": "ext", "ext": ext, "input": {"mode": "argv", "argv": [], "env": {}, "tree": None}})
+            stats["violations"] += 1
+    fields = [{"name": path, "ty": n["ty"], "def": ext_effective(n)} for path, n in ext_leaves(ext["fields"])]
+    pos = len(STYLES)
     for inp in inputs:
         results = {st: run_input(parsers[st], inp) for st in STYLES}
         ctx.count(4)
-        ctx.hist("mode", "ext-" + inp["mode"])
+        ctx.hist("mode", "rec-" + inp["mode"])
         ctx.hist("verdict", "/".join(results[st][0] for st in STYLES))
         if results["dataclass"][0] == "ok":
-            ctx.nontrivial(json.dumps(["ext", ext, inp], sort_keys=True, default=repr))
+            ctx.nontrivial(json.dumps(["rec", ext, inp], sort_keys=True, default=repr))
         judge(ctx, key, fields, inp, results, stats, origin, ext=ext)
+        if out is not None:
+            for st in STYLES:
+                d = compare_model(st, out[pos], results[st])
+                pos += 1
+                if st == "dotted" and ext_uses_whole(inp, ext):
+                    d = None      # abbreviation matching / the open finding class decide for the dotted style
+                if d is not None and d.startswith("dump differs") and ext_uses_whole(inp, ext):
+                    d = None
+                if d is not None:
+                    stats["disagree"] += 1
+                    ctx.tie_break("correspondence Validate (parseR vs the real %s-style parser, recursive fields) disagrees: %s" % (st, d[:160]),
+                                  json.dumps({"d": d, "style": st, "input": inp, "ext": ext}, default=repr)[:1900])
+                    if os.environ.get("C07_DEBUG"):
+                        with open(os.environ["C07_DEBUG"], "a") as f:
+                            f.write(json.dumps({"d": d, "style": st, "input": inp, "ext": ext, "model": out[pos - 1], "real": list(results[st])}, default=repr) + "\n")
 
 
 def run(ctx: Ctx):
     repo_python_path()
-    ctx.rule = ("field lists of 1-4 fields over {int,str,bool,float,Optional[int],List[int]} with/without defaults, declared in the four styles as real "
+    ctx.rule = ("(a) flat field lists of 1-4 fields over {int,str,bool,float,Optional[int],List[int]} with/without defaults, declared in the four styles as real "
                 "parsers; per field list a mix of inputs over {argv dotted options, `+` appends, whole-group JSON option, --cfg JSON at a random position, "
                 "config string, object, environment variables incl. the whole-group variable}, valid and invalid (wrong types, unknown keys, missing "
                 "required, non-mapping group); compared: as_dict()/ArgumentError and dump text across the four styles and with the model; "
-                "non-trivial = an input accepted with a non-empty group; distinct by canonical JSON of (key, fields, input)")
+                "(b) recursive field lists (sub-groups to depth 3, never the last field) with group defaults declared at the root (default instance / default "
+                "dict) and through the default instances of dataclass-typed parameters, inputs incl. sub-group options and nested trees; both through "
+                "the model (tables and results) and the oracle; non-trivial = an input accepted with a non-empty group; distinct by canonical JSON of (key, fields, input)")
     ctx.assumptions = [
-        "field lists with a nested sub-group and group defaults declared through a default instance / dict are search-stage only (oracle across the four "
-        "real parsers, counted in search_only_field_lists): the Lean model of C07 covers flat field lists",
+        "recursive field lists: every leaf has a class default (a default instance needs one); declared defaults are given for the root group and "
+        "through the default instances of dataclass-typed parameters; a root default instance is built with the sub-groups' own values merged in",
         "the YAML loader is an oracle: every text occurring in an input is loaded by jsonargparse's load_value and handed to the model",
         "field names do not start with '_' and Optional fields have a default (the signature styles cannot express a required Optional parameter)",
         "the order of parameters is the same in the four declarations (parameters without default first)",
     ]
-    ctx.lean_build()
+    ctx.lean_build(extractors=["set_defaults_loop"])
     stats = {"violations": 0, "known": 0, "disagree": 0}
     from ..lib import corpus as corpus_mod
 
@@ -740,19 +950,24 @@ def run(ctx: Ctx):
     if corp:
         run_groups(ctx, corp, stats, "corpus")
     n_ext = 0
-    for c in corpus_all:
-        if "ext" in c:
-            run_ext(ctx, c["ext"], c["inputs"], stats, "corpus")
-            n_ext += 1
-    for _ in range(ctx.budget(40, 500)):
-        ext = gen_ext(ctx.rng)
-        run_ext(ctx, ext, [{"mode": "argv", "argv": [], "env": {}, "tree": None}] + [gen_ext_input(ctx.rng, ext) for _ in range(ctx.budget(8, 16))], stats, "generated")
-        n_ext += 1
-        if n_ext == 1 + sum(1 for c in corpus_all if "ext" in c):
-            ctx.sample({"extended": ext})
-        if ctx.elapsed() > ctx.budget(30, 300):
+    corp_ext = [(c["ext"], c["inputs"]) for c in corpus_all if "ext" in c]
+    if corp_ext:
+        run_exts(ctx, corp_ext, stats, "corpus")
+        n_ext += len(corp_ext)
+    t_ext = ctx.elapsed()
+    n_gen = ctx.budget(40, 500)
+    for g0 in range(0, n_gen, 20):
+        exts = []
+        for _ in range(min(20, n_gen - g0)):
+            ext = gen_ext(ctx.rng)
+            exts.append((ext, [{"mode": "argv", "argv": [], "env": {}, "tree": None}] + [gen_ext_input(ctx.rng, ext) for _ in range(ctx.budget(8, 16))]))
+        if g0 == 0:
+            ctx.sample({"recursive": exts[0][0]})
+        run_exts(ctx, exts, stats, "generated")
+        n_ext += len(exts)
+        if ctx.elapsed() - t_ext > ctx.budget(25, 300):
             break
-    ctx.extra["search_only_field_lists"] = n_ext
+    ctx.extra["recursive_field_lists"] = n_ext
     n_groups = ctx.budget(80, 1200) * (2 if ctx.search_boost > 1 else 1)
     n_inputs = ctx.budget(25, 40)
     chunk = ctx.budget(20, 50)
@@ -802,14 +1017,14 @@ def replay(ctx: Ctx, body):
     if r.get("kind") == "ext":
         parsers, src = build_four_ext(r["ext"])
         print("generated module:\n" + src)
-        print("declared defaults:", json.dumps([[l["name"], l["def"], "class default", l["cls"]] for l in r["ext"]["leaves"]]))
+        print("leaves (path, effective default, class default):", json.dumps([[pth, ext_effective(n), n["cls"]] for pth, n in ext_leaves(r["ext"]["fields"])]))
         print("input:", json.dumps(r["input"]))
         res = {st: run_input(parsers[st], r["input"]) for st in STYLES}
         for st in STYLES:
             print("%-10s %s" % (st, summary(res[st])))
         ref = res["dataclass"]
         differ = [st for st in STYLES if res[st][0] != ref[0] or (ref[0] == "ok" and res[st][1:] != ref[1:])]
-        if differ == ["dotted"] and uses_whole(r["input"], r["ext"]["key"]) and ctx.is_open(F_WHOLE):
+        if differ == ["dotted"] and ext_uses_whole(r["input"], r["ext"]) and ctx.is_open(F_WHOLE):
             print("the only difference falls into the open known finding class", F_WHOLE, "(not a new violation)")
             return 0
         return 1 if differ or any(res[st][0] == "exc" for st in STYLES) else 0
